@@ -212,6 +212,27 @@ func tokenizeFine(s string) []string {
 	return out
 }
 
+// shrinkTokens removes tokens while keep stays true: chunk-wise to
+// 1-minimality, then (short lists) pairs of tokens that only go together
+// (an argument and its comma, a pair of braces).
+func shrinkTokens(ts []string, keep func([]string) bool) []string {
+	ts = ddmin(ts, keep)
+	for again := len(ts) <= 24; again; {
+		again = false
+	pairs:
+		for i := 0; i < len(ts); i++ {
+			for j := i + 1; j < len(ts); j++ {
+				q := append(append(append([]string{}, ts[:i]...), ts[i+1:j]...), ts[j+1:]...)
+				if keep(q) {
+					ts, again = ddmin(q, keep), true
+					break pairs
+				}
+			}
+		}
+	}
+	return ts
+}
+
 // renameIdents maps the identifiers among ts (not Go keywords, not selectors,
 // not the first skip tokens) to the given canonical names in order of
 // appearance.
@@ -270,7 +291,24 @@ func (r *reducer) reduceItems() {
 	})
 	if f.Header != "" {
 		h := f.Header
-		r.try(func() { f.Header = "" }, func() { f.Header = h })
+		if !r.try(func() { f.Header = "" }, func() { f.Header = h }) {
+			done := false
+			for _, c := range []string{"// c\n", "//go:build p", "//go:build p\n"} {
+				if h == c || r.try(func() { f.Header = c }, func() { f.Header = h }) {
+					done = true
+					break
+				}
+			}
+			if !done {
+				ts := shrinkTokens(tokenizeFine(h), func(q []string) bool {
+					f.Header = strings.Join(q, "")
+					ok := r.test(f.String())
+					f.Header = h
+					return ok
+				})
+				f.Header = strings.Join(ts, "")
+			}
+		}
 	}
 	// raw items: drop lines
 	for _, it := range f.Items {
@@ -313,7 +351,7 @@ func (r *reducer) canonItems() {
 		if it.K == IGo && !r.rawDone[it.Sig] {
 			// css / script templates and Go blocks are opaque text: shorten token-wise, rename identifiers
 			o := it.Sig
-			ts := ddmin(tokenizeFine(o), func(q []string) bool {
+			ts := shrinkTokens(tokenizeFine(o), func(q []string) bool {
 				it.Sig = strings.Join(q, "")
 				ok := it.Sig != "" && r.test(f.String())
 				it.Sig = o
@@ -698,30 +736,12 @@ func (r *reducer) canonS(p *string, tokens bool, canon ...string) {
 		}
 	}
 	if tokens {
-		ts := tokenizeFine(o)
-		ts = ddmin(ts, func(q []string) bool {
+		ts := shrinkTokens(tokenizeFine(o), func(q []string) bool {
 			*p = strings.Join(q, "")
 			ok := goOK(r.goSort, *p) && r.test(r.f.String())
 			*p = o
 			return ok
 		})
-		// 1-minimal token lists may still shrink by removing two tokens at once (an argument and its comma)
-		for again := len(ts) <= 24; again; {
-			again = false
-		pairs:
-			for i := 0; i < len(ts); i++ {
-				for j := i + 1; j < len(ts); j++ {
-					q := append(append(append([]string{}, ts[:i]...), ts[i+1:j]...), ts[j+1:]...)
-					*p = strings.Join(q, "")
-					ok := goOK(r.goSort, *p) && r.test(r.f.String())
-					*p = o
-					if ok {
-						ts, again = q, true
-						break pairs
-					}
-				}
-			}
-		}
 		// rename the identifiers that are left canonically
 		names := []string{"s", "b", "vs", "x1", "x2", "x3", "x4"}
 		if r.goSort == "func" {
